@@ -146,6 +146,20 @@ func c01Edge() []JRound {
 		empty := must(ocr2keepersv3.AutomationObservation{}.Encode())
 		out = append(out, buildRound(4, 1, digest, 3, nil, [][]byte{dup, empty, empty}, []int{0, 1, 2}))
 	}
+	// volume: 100 agreed results of ~13 kB each (10 000 bytes of perform data), spread over four observations that each
+	// stay under the observation limit; the outcome (~1.3 MB) is far below MaxOutcomeLength and must list all of them
+	{
+		digest := genHash(r)
+		var rs []ocr2keepers.CheckResult
+		for i := 0; i < 100; i++ {
+			res := genResult(r, genUpkeepID(r, i%2 == 0), 100)
+			res.PerformData = r.Bytes(10000)
+			rs = append(rs, res)
+		}
+		lo := must(ocr2keepersv3.AutomationObservation{Performable: rs[:65]}.Encode())
+		hi := must(ocr2keepersv3.AutomationObservation{Performable: rs[35:]}.Encode())
+		out = append(out, buildRound(4, 1, digest, 12, nil, [][]byte{lo, hi, hi, lo}, []int{0, 1, 2, 3}))
+	}
 	return out
 }
 
